@@ -195,9 +195,12 @@ def liveStage (ext : Ext) (s : AggStage) (_old : LiveState) (t : Table) : RunR (
     | .panic p => .panic p
     | .unmodelled w => .unmodelled w
   | .sort cols dir =>
-    if !sortKeysOk ext cols t.rows then
-      .unmodelled "sort key fails to evaluate on some row (comparator is not a total order)"
-    else .ok (.table t, { t with rows := sortRows ext cols dir t.columns t.rows })
+    -- `self.columns = agg.columns; self.state = agg.data`: what was stored is dropped; `emit`
+    -- sorts what is stored now (the sort itself is `applyStage`'s)
+    match applyStage ext (.sort cols dir) t with
+    | .ok t' => .ok (.table t, t')
+    | .panic p => .panic p
+    | .unmodelled w => .unmodelled w
   | .adapt op =>
     match adaptTable ext op t with
     | .ok t' => .ok (.table t', t')
